@@ -577,7 +577,12 @@ func c34mSign(p *core.Prog, r *core.Report) {
 	}
 	info := f.Info()
 	g := f.Graph()
-	magnitude := call("github.com/dustin/go-humanize.ParseBytes", "toml.parseBytesUnsigned")
+	// the unsigned magnitude parser: humanize.ParseBytes, parseBytesUnsigned, or a helper of
+	// package toml returning (uint64, error) that wraps one of them
+	magnitude := call(append([]string{"github.com/dustin/go-humanize.ParseBytes", "toml.parseBytesUnsigned"}, tomlParserWrappers(p, func(sig *types.Signature) bool {
+		b, ok := sig.Results().At(0).Type().Underlying().(*types.Basic)
+		return ok && b.Kind() == types.Uint64
+	})...)...)
 	mcalls := core.AllCalls(info, f.Decl.Body, magnitude)
 	if !r.Check(len(mcalls) == 1, rule, f.String(), "magnitude-parse", f.Pos(), fmt.Sprintf("%d call(s) of the unsigned magnitude parser (exactly 1 confirmed by reading)", len(mcalls))) {
 		return
